@@ -102,6 +102,32 @@ def literal_program(rng):
     return '\n'.join(L) + '\n'
 
 
+# erroneous programs with SEVERAL faults of one kind: which one is reported (message and line) is part of the output
+_L4 = ['first', 'second', 'third', 'fourth', 'fifth', 'sixth']
+ERROR_PROGRAMS = {
+    'err_dup_labels': 'void main() {\n' + ''.join('%s: X++;\n' % l for l in _L4) + ''.join('%s: Y++;\n' % l for l in reversed(_L4)) + '}\n',
+    'err_dup_labels3': 'void main() {\n' + ''.join('%s: X++;\n%s: Y++;\n' % (l, l) for l in _L4) + '}\n',
+    'err_unknown_gotos': 'void main() {\n' + ''.join('if (X) goto %s;\n' % l for l in _L4) + '}\n',
+    'err_unknown_gotos_fns': ''.join('void f%d() {\nif (X) goto %s;\nif (Y) goto %s_b;\n}\n' % (i, l, l) for i, l in enumerate(_L4)) + 'void main() { f0(); f1(); f2(); f3(); }\n',
+    'err_dup_and_unknown': 'void main() {\n' + ''.join('%s: X++;\n' % l for l in _L4) + ''.join('goto %s_x;\n%s: Y++;\n' % (l, l) for l in _L4) + '}\n',
+    'err_unknown_ids': 'char a;\n' + ''.join('void f%d() {\na = %s;\n}\n' % (i, l) for i, l in enumerate(_L4)) + 'void main() { f0(); }\n',
+    'err_unknown_ids_one_fn': 'char a;\nvoid main() {\n' + ''.join('a = %s + %s_b;\n' % (l, l) for l in _L4) + '}\n',
+    'err_dup_vars': ''.join('char %s;\n' % l for l in _L4) + ''.join('char %s;\n' % l for l in reversed(_L4)) + 'void main() { }\n',
+    'err_dup_locals': 'void main() {\n' + ''.join('char %s;\n' % l for l in _L4) + ''.join('char %s;\n' % l for l in reversed(_L4)) + '}\n',
+    'err_dup_fns': ''.join('void %s() { X++; }\n' % l for l in _L4) + ''.join('void %s() { Y++; }\n' % l for l in reversed(_L4)) + 'void main() { }\n',
+    'err_unknown_fns': 'void main() {\n' + ''.join('%s();\n' % l for l in _L4) + '}\n',
+    'err_inline_before_def': ''.join('inline void %s();\n' % l for l in _L4) + 'void main() {\n' + ''.join('%s();\n' % l for l in _L4) + '}\n' + ''.join('inline void %s() { X++; }\n' % l for l in _L4),
+    'err_arity': ''.join('void %s(char p) { X = p; }\n' % l for l in _L4) + 'void main() {\n' + ''.join('%s(1, 2);\n' % l for l in _L4) + '}\n',
+    'err_macro_redefined': ''.join('#define %s 1\n' % l.upper() for l in _L4) + ''.join('#define %s 2\n' % l.upper() for l in reversed(_L4)) + 'void main() { }\n',
+    'err_missing_includes': ''.join('#include "%s.h"\n' % l for l in _L4) + 'void main() { }\n',
+    'err_const_assign': ''.join('const char %s = 1;\n' % l for l in _L4) + 'void main() {\n' + ''.join('%s = 2;\n' % l for l in _L4) + '}\n',
+    'err_case_twice': 'char a;\nvoid main() {\nswitch (a) {\n' + ''.join('case %d: X++;\n' % i for i in (1, 2, 3, 4)) + ''.join('case %d: Y++;\n' % i for i in (4, 3, 2, 1)) + '}\n}\n',
+    'err_break_outside': 'void f0() { break; }\nvoid f1() { continue; }\nvoid f2() { break; }\nvoid main() { continue; }\n',
+    'err_void_values': 'char a;\n' + ''.join('void %s() { X++; }\n' % l for l in _L4) + 'void main() {\n' + ''.join('a = %s();\n' % l for l in _L4) + '}\n',
+    'err_interrupts': ''.join('void interrupt %s() { X++; %s_x = 1; }\n' % (l, l) for l in _L4) + 'void main() { }\n',
+}
+
+
 def canon(r):
     """everything observable of one compilation"""
     return json.dumps({k: r.get(k) for k in ('status', 'err', 'vars', 'funcs', 'tree', 'inuse', 'lits', 'pp', 'map')}, sort_keys=True)
@@ -126,6 +152,7 @@ def run(ctx):
     for i in range(60 if quick else 1500):
         srcs['l%d' % i] = literal_program(rng)
     srcs.update(LITERAL_PROGRAMS)
+    srcs.update(ERROR_PROGRAMS)
     keys = list(srcs.keys())
     want = ['vars', 'funcs', 'text', 'lits', 'pp', 'map']
     viol = []
@@ -152,6 +179,7 @@ def run(ctx):
             a = {x: r.get(x) for x in ('vars', 'funcs')}
             b = {x: r['other'].get(x) for x in ('vars', 'funcs')}
             viol.append({'why': 'two compilations of the same source in one process differ', 'program': srcs[k],
+                         'status_1': (r.get('status'), r.get('err')), 'status_2': (r['other'].get('status'), r['other'].get('err')),
                          'variables_1': [v['name'] for v in r.get('vars', [])], 'variables_2': [v['name'] for v in r['other'].get('vars', [])],
                          'functions_1': [f['name'] for f in r.get('funcs', [])], 'functions_2': [f['name'] for f in r['other'].get('funcs', [])]})
             continue
